@@ -433,6 +433,20 @@ fn main() {
                 let t = fd_table(ctl.fd);
                 ctl.send(&format!("fds {}", t));
             }
+            "spawn" => {
+                // fork a child of our own that stays in our process group and just waits
+                // (a program that started a helper): answers with its pid
+                let pid = unsafe { libc::fork() };
+                if pid == 0 {
+                    unsafe {
+                        libc::close(ctl.fd);
+                        loop {
+                            libc::pause();
+                        }
+                    }
+                }
+                ctl.send(&format!("spawned {}", pid));
+            }
             "setsid" => {
                 // leave the job's process group and the session (like a daemonising program)
                 let r = unsafe { libc::setsid() };
